@@ -367,3 +367,33 @@ def lazy_replay(entry):
 load_pending.replay = lazy_replay('load')
 getitem.replay = lazy_replay('getitem')
 lookup_lazy.replay = lazy_replay('lookup')
+
+
+# ------------------------------------------------------------------------------ BarcodeParser.__init__: the tables belong to the instance
+def ctor_setup(eng):
+    from pyvc import externals
+    externals.EXTRA['glob.glob'] = lambda e, a, k, n: []            # an empty barcode directory
+    externals.EXTRA['os.path.realpath'] = lambda e, a, k, n: '/pkg/barcodeFileParser.py'
+    externals.EXTRA['os.path.dirname'] = lambda e, a, k, n: '/pkg'
+    externals.EXTRA['os.path.join'] = lambda e, a, k, n: '/'.join(str(x) for x in a)
+
+
+parser_state = Contract(
+    PROP, FP + '::BarcodeParser', name='BarcodeParser.__init__[instances share no tables]',
+    harness='''
+a = BarcodeParser(hammingDistanceExpansion=1)
+b = BarcodeParser(hammingDistanceExpansion=0)
+a.addBarcode('wl', 'AAAA', 1)
+a.addBarcode('wl', 'AAAT', 1, hammingDistance=1, originBarcode='AAAA')
+return (a, b)
+''',
+    params={}, setup=ctor_setup,
+    ensures={
+        'a_new_parser_knows_no_barcode': 'len(result[1].barcodes) == 0 and len(result[1].extendedBarcodes) == 0 and len(result[1].pending_files) == 0',
+        'tables_are_per_instance': '(result[0].barcodes is not result[1].barcodes) and (result[0].extendedBarcodes is not result[1].extendedBarcodes)',
+        'distance_as_given': 'result[0].hammingDistanceExpansion == 1 and result[1].hammingDistanceExpansion == 0',
+    },
+    raises={},
+    assumptions=['an empty barcode directory (glob returns nothing): the constructor only allocates its tables'],
+)
+UNITS.append(parser_state)
